@@ -204,6 +204,46 @@ func TestC01(t *testing.T) {
 		}
 	}
 
+	// (E) bounded-exhaustive: every program of the reduced alphabet up to a
+	// size bound, on a fixed input set
+	enumInputs := []any{nil, 1, "s", []any{1, 2}, map[string]any{"a": []any{0, []any{1}}}, []any{map[string]any{"a": 1}, []any{}}}
+	en := gen.NewEnumerator()
+	maxFull, maxPartial := 3, 4
+	if rec.Thorough() {
+		maxFull, maxPartial = 4, 5
+	}
+	count := 0
+	complete := true
+	for n := 1; n <= maxPartial; n++ {
+		for _, src := range en.Programs(n, 0) {
+			count++
+			if !rec.Mine(count) {
+				continue
+			}
+			ins := enumInputs
+			if n > maxFull {
+				ins = []any{enumInputs[(count/7)%len(enumInputs)], enumInputs[4]}
+			}
+			for _, in := range ins {
+				pc := progCase{Query: src, Input: univ.V{X: in}, Features: []string{"enumerated", "try"}}
+				rec.Class(fmt.Sprintf("tier/enumerated-size-%d", n))
+				if msg := judge("enum", pc); msg != "" {
+					rec.Direct("enum", pc, "%s", msg)
+					complete = false
+					if rec.Violations() > 10 {
+						t.Fatalf("too many violations")
+					}
+				}
+			}
+		}
+	}
+	rec.Exhaustive(fmt.Sprintf("all programs of the reduced alphabet with <= %d nodes on %d inputs (and <= %d nodes on 2 inputs)", maxFull, len(enumInputs), maxPartial), complete)
+
+	// stateful model test of the two persistent stacks (hooks): LIFO fork
+	// discipline against an immutable-list model
+	rec.Rapid(t, "stack-model", rec.Scale(3000, 100000), func(t *rapid.T) { stackModel(t) })
+	rec.Rapid(t, "scope-stack-model", rec.Scale(3000, 100000), func(t *rapid.T) { scopeStackModel(t) })
+
 	conf := gen.Conf{AltPat: true, Paths: true, Builtins: true, MaxNodes: 40,
 		Halt:       !rec.KnownClass("C01/halt-under-destructuring-alternative"),
 		AltPatFree: !rec.KnownClass("C01/stale-variable-in-destructuring-alternative")}
@@ -219,4 +259,132 @@ func TestC01(t *testing.T) {
 		}
 	})
 	_ = fmt.Sprint
+}
+
+// ---------------------------------------------------------------------------
+// persistent stacks against an immutable-list model
+
+type cell struct {
+	v    int
+	next *cell
+}
+
+type savedFork struct {
+	list       *cell
+	index, lim int
+}
+
+func stackModel(t *rapid.T) {
+	impl := gojq.VerifNewStack()
+	var cur *cell
+	var forks []savedFork
+	depth, maxDepth, ops := 0, 0, 0
+	next := 0
+	t.Repeat(map[string]func(*rapid.T){
+		"push": func(t *rapid.T) {
+			next++
+			impl.Push(next)
+			cur = &cell{next, cur}
+			depth++
+			if depth > maxDepth {
+				maxDepth = depth
+			}
+			ops++
+		},
+		"pop": func(t *rapid.T) {
+			if cur == nil {
+				t.Skip("empty")
+			}
+			got := impl.Pop()
+			if got != cur.v {
+				t.Fatalf("%s", rec.Fail("stack-model", map[string]any{"ops": ops}, "pop returned %v, the model says %d", got, cur.v))
+			}
+			cur = cur.next
+			depth--
+			ops++
+		},
+		"save": func(t *rapid.T) {
+			i, l := impl.Save()
+			forks = append(forks, savedFork{cur, i, l})
+			ops++
+		},
+		"restore": func(t *rapid.T) {
+			if len(forks) == 0 {
+				t.Skip("no fork")
+			}
+			f := forks[len(forks)-1]
+			forks = forks[:len(forks)-1]
+			impl.Restore(f.index, f.lim)
+			cur = f.list
+			depth = 0
+			for c := cur; c != nil; c = c.next {
+				depth++
+			}
+			ops++
+		},
+		"": func(t *rapid.T) {
+			if impl.Empty() != (cur == nil) {
+				t.Fatalf("%s", rec.Fail("stack-model", map[string]any{"ops": ops}, "Empty() = %v, the model has %v", impl.Empty(), cur == nil))
+			}
+			if cur != nil && impl.Top() != cur.v {
+				t.Fatalf("%s", rec.Fail("stack-model", map[string]any{"ops": ops}, "Top() = %v, the model says %d", impl.Top(), cur.v))
+			}
+		},
+	})
+	rec.Eval()
+	if len(forks) > 0 || ops > 10 {
+		rec.NT(fmt.Sprintf("stack-model/%d/%d/%d", ops, maxDepth, next))
+	}
+	rec.Class("stack-model")
+}
+
+func scopeStackModel(t *rapid.T) {
+	impl := gojq.VerifNewScopeStack()
+	var cur *cell
+	var forks []savedFork
+	ops, next := 0, 0
+	t.Repeat(map[string]func(*rapid.T){
+		"push": func(t *rapid.T) {
+			next++
+			impl.Push(next)
+			cur = &cell{next, cur}
+			ops++
+		},
+		"pop": func(t *rapid.T) {
+			if cur == nil {
+				t.Skip("empty")
+			}
+			got := impl.Pop()
+			if got != cur.v {
+				t.Fatalf("%s", rec.Fail("scope-stack-model", map[string]any{"ops": ops}, "pop returned %v, the model says %d", got, cur.v))
+			}
+			cur = cur.next
+			ops++
+		},
+		"save": func(t *rapid.T) {
+			i, l := impl.Save()
+			forks = append(forks, savedFork{cur, i, l})
+			ops++
+		},
+		"restore": func(t *rapid.T) {
+			if len(forks) == 0 {
+				t.Skip("no fork")
+			}
+			f := forks[len(forks)-1]
+			forks = forks[:len(forks)-1]
+			impl.Restore(f.index, f.lim)
+			cur = f.list
+			ops++
+		},
+		"": func(t *rapid.T) {
+			if impl.Empty() != (cur == nil) {
+				t.Fatalf("%s", rec.Fail("scope-stack-model", map[string]any{"ops": ops}, "Empty() = %v, the model has %v", impl.Empty(), cur == nil))
+			}
+		},
+	})
+	rec.Eval()
+	if len(forks) > 0 || ops > 10 {
+		rec.NT(fmt.Sprintf("scope-stack-model/%d/%d", ops, next))
+	}
+	rec.Class("scope-stack-model")
 }
